@@ -286,78 +286,217 @@ class Decoder:
 def date_system_rule(ctx, prog, rid):
     """Date categories are written as serial numbers of the workbook's date system (ECMA-376 Part 1, 18.17.4.1):
     1904 base: serial 0 = 1904-01-01; 1900 base: serial 1 = 1900-01-01 and, for compatibility, a non-existent 1900-02-29
-    with serial 60, so every date from 1900-03-01 on is one more than its true day count.  The constants of
-    Category._excel_date_number are folded and compared with that definition (dates computed with datetime on constants)."""
+    with serial 60, so every date from 1900-03-01 on is one more than its true day count.
+
+    Every path through Category._excel_date_number is evaluated abstractly: the date-system flag decided on the path, the
+    epoch the label's date is subtracted from (folded wherever it is defined), the constant added to the day count, and the
+    threshold decisions taken on the day count (or on the date).  The resulting table must equal the definition above; dates
+    are computed with datetime on constants only."""
     import datetime
+
+    from sa import paths as P_
+    from sa.desugar import desugar
+    from sa.pysrc import Unknown
 
     dm = prog.modules.get("pptx.chart.data")
     cat = dm.classes.get("Category") if dm else None
     f = cat.methods.get("_excel_date_number") if cat else None
     if f is None:
         raise AnalysisError("anchor vanished: Category._excel_date_number")
+    key = "Category._excel_date_number"
     flag = f.node.args.args[1].arg
-    aliases_ = {}
-    for n in ast.walk(f.node):
-        if isinstance(n, ast.Assign) and isinstance(n.targets[0], ast.Tuple) and isinstance(n.value, ast.Tuple):
-            for t, v in zip(n.targets[0].elts, n.value.elts):
-                aliases_[t.id] = dotted(v)
+    d = desugar(f.node)
 
-    def as_date(e):
-        if isinstance(e, ast.Call) and (aliases_.get(dotted(e.func), dotted(e.func)) or "").endswith("date") and len(e.args) == 3:
-            v = [prog.const(a, f.module) for a in e.args]
-            if all(isinstance(x, int) for x in v):
-                return datetime.date(*v)
+    class Und(Exception):
+        pass
+
+    def fold_date(e, env):
+        """datetime.date for a constant date expression (constructor call on constants, or a name folding to one)."""
+        if isinstance(e, ast.Name) and isinstance(env.get(e.id), datetime.date):
+            return env[e.id]
+        if isinstance(e, ast.Call) and len(e.args) == 3:
+            fn = dotted(e.func) or ""
+            tgt = env.get(fn, fn) if isinstance(env.get(fn), str) else fn
+            if tgt.endswith("date"):
+                v = [prog.const(a, f.module) for a in e.args]
+                if all(isinstance(x, int) for x in v):
+                    return datetime.date(*v)
+        if isinstance(e, (ast.Name, ast.Attribute)):
+            node = f.module.assigns.get(e.id) if isinstance(e, ast.Name) else None
+            if node is not None:
+                return fold_date(node, {})
         return None
 
-    epochs = None
-    for n in ast.walk(f.node):
-        if isinstance(n, ast.IfExp) and dotted(n.test) == flag:
-            a, b = as_date(n.body), as_date(n.orelse)
-            if a and b:
-                epochs = {True: a, False: b}
-    adj = None
-    for n in ast.walk(f.node):
-        if isinstance(n, ast.If) and isinstance(n.test, ast.BoolOp) and isinstance(n.test.op, ast.And) and len(n.test.values) == 2:
-            g, c = n.test.values
-            if isinstance(g, ast.UnaryOp) and isinstance(g.op, ast.Not) and dotted(g.operand) == flag and isinstance(c, ast.Compare) \
-                    and isinstance(c.ops[0], (ast.Gt, ast.GtE)):
-                k = prog.const(c.comparators[0], f.module)
-                inc = [x for x in n.body if isinstance(x, ast.AugAssign) and isinstance(x.op, ast.Add) and dotted(x.target) == dotted(c.left)]
-                if isinstance(k, int) and len(inc) == 1:
-                    first = k + 1 if isinstance(c.ops[0], ast.Gt) else k
-                    adj = (first, prog.const(inc[0].value, f.module))
-    adj_date = None
-    if adj is None and epochs is not None:
-        # form: `if not date_1904 and <date expr> > date(1900, 3, 1): n += 1`
-        for n in ast.walk(f.node):
-            if isinstance(n, ast.If) and isinstance(n.test, ast.BoolOp) and isinstance(n.test.op, ast.And) and len(n.test.values) == 2:
-                g, c = n.test.values
-                if isinstance(g, ast.UnaryOp) and isinstance(g.op, ast.Not) and dotted(g.operand) == flag and isinstance(c, ast.Compare) \
-                        and isinstance(c.ops[0], (ast.Gt, ast.GtE)) and as_date(c.comparators[0]) is not None:
-                    inc = [x for x in n.body if isinstance(x, ast.AugAssign) and isinstance(x.op, ast.Add)]
-                    if len(inc) == 1:
-                        d0 = as_date(c.comparators[0])
-                        first_date = d0 + datetime.timedelta(days=1) if isinstance(c.ops[0], ast.Gt) else d0
-                        adj = ((first_date - epochs[False]).days, prog.const(inc[0].value, f.module))
-    days = any(isinstance(n, ast.Attribute) and n.attr == "days" for n in ast.walk(f.node))
-    key = "Category._excel_date_number"
-    if epochs is None or adj is None or not days:
-        ctx.error(key, "date-system constants not recognised (epoch pair %s, leap adjustment %s)" % (epochs, adj))
+    def ev(e, env):
+        """abstract value: ('label',) the label's date | ('date', d) | ('delta', epoch) | ('days', epoch, add) | ('int', k)"""
+        dc = fold_date(e, env)
+        if dc is not None:
+            return ("date", dc)
+        if isinstance(e, ast.Name):
+            if e.id in env and isinstance(env[e.id], tuple):
+                return env[e.id]
+            k = prog.const(e, f.module)
+            if isinstance(k, int) and not isinstance(k, bool):
+                return ("int", k)
+            raise Und("name %s" % e.id)
+        if isinstance(e, ast.Constant) and isinstance(e.value, int):
+            return ("int", e.value)
+        if isinstance(e, ast.Call) and len(e.args) == 3 and all(isinstance(a, ast.Attribute) and a.attr in ("year", "month", "day") for a in e.args):
+            return ("label",)
+        if isinstance(e, ast.BinOp) and isinstance(e.op, ast.Sub):
+            l, r = ev(e.left, env), ev(e.right, env)
+            if l == ("label",) and r[0] == "date":
+                return ("delta", r[1])
+            if l[0] == "days" and r[0] == "int":
+                return ("days", l[1], l[2] - r[1])
+            raise Und("subtraction %s" % ast.unparse(e))
+        if isinstance(e, ast.BinOp) and isinstance(e.op, ast.Add):
+            l, r = ev(e.left, env), ev(e.right, env)
+            if l[0] == "int":
+                l, r = r, l
+            if l[0] == "days" and r[0] == "int":
+                return ("days", l[1], l[2] + r[1])
+            raise Und("addition %s" % ast.unparse(e))
+        if isinstance(e, ast.Attribute) and e.attr == "days":
+            v = ev(e.value, env)
+            if v[0] == "delta":
+                return ("days", v[1], 0)
+        raise Und("expression `%s`" % ast.unparse(e))
+
+    rows = []  # (flag value, epoch, add, [first day count from which this row applies / below which it applies])
+    try:
+        for pth in P_.enum_paths(d.body):
+            if pth.end != "return":
+                continue
+            env = {}
+            flagv = None
+            lo = hi = None  # the path applies to day counts in [lo, hi)
+            feasible = True
+            for evn in pth.events:
+                if evn[0] == "stmt":
+                    st = evn[1]
+                    if isinstance(st, ast.Assign) and isinstance(st.targets[0], ast.Name):
+                        if isinstance(st.value, ast.Attribute) and dotted(st.value) in ("datetime.date", "date"):
+                            env[st.targets[0].id] = dotted(st.value)
+                            continue
+                        if dotted(st.value) == "self._label":
+                            continue
+                        env[st.targets[0].id] = ev(st.value, env)
+                    elif isinstance(st, ast.AugAssign) and isinstance(st.target, ast.Name) and isinstance(st.op, ast.Add):
+                        cur, inc = env.get(st.target.id), ev(st.value, env)
+                        if not (isinstance(cur, tuple) and cur[0] == "days" and inc[0] == "int"):
+                            raise Und("augmented assignment")
+                        env[st.target.id] = ("days", cur[1], cur[2] + inc[1])
+                    continue
+                if evn[0] != "cond":
+                    raise Und("statement kind %s" % evn[0])
+                atoms_ = P_.atoms(evn[1], evn[2])
+                if not atoms_ and isinstance(evn[1], ast.BoolOp) and isinstance(evn[1].op, ast.And) and evn[2] is False:
+                    # `A and B` is false: when every conjunct but one is already known true on this path, that one is false
+                    unknown_ = []
+                    contradicted = False
+                    for cj in evn[1].values:
+                        at_ = P_.atoms(cj, True)
+                        if len(at_) == 1 and at_[0][0] == "truthy" and at_[0][1] == flag and flagv is not None:
+                            if at_[0][2] != flagv:
+                                contradicted = True  # this conjunct is false already: nothing more is learnt
+                        else:
+                            unknown_.append(cj)
+                    if not contradicted and len(unknown_) == 1:
+                        atoms_ = P_.atoms(unknown_[0], False)
+                    elif not contradicted:
+                        raise Und("condition `%s` is false for an undetermined reason" % ast.unparse(evn[1]))
+                for atom in atoms_:
+                    if atom[0] == "truthy" and atom[1] == flag:
+                        if flagv is not None and flagv != atom[2]:
+                            feasible = False
+                        flagv = atom[2]
+                    elif atom[0] == "cmp":
+                        op, ls, rs, outcome = atom[1], atom[2], atom[3], atom[4]
+                        l = ev(ast.parse(ls, mode="eval").body, env)
+                        r = ev(ast.parse(rs, mode="eval").body, env)
+                        if l[0] == "days" and r[0] == "int":
+                            k = r[1] - l[2]  # compare the raw day count with k
+                        elif l == ("label",) and r[0] == "date":
+                            k = None
+                            kd = r[1]
+                        else:
+                            raise Und("comparison %s %s %s" % (ls, op, rs))
+                        if k is None:
+                            # date comparison: translate to a day count once the epoch is known (use 1899-12-31 provisionally)
+                            k = ("date", kd)
+                        first_true = {"Gt": 1, "GtE": 0}.get(op)
+                        if first_true is None:
+                            first_below = {"Lt": 0, "LtE": 1}.get(op)
+                            if first_below is None:
+                                raise Und("operator %s" % op)
+                            bound = (k, first_below)
+                            if outcome:
+                                hi = bound
+                            else:
+                                lo = bound
+                        else:
+                            bound = (k, first_true)
+                            if outcome:
+                                lo = bound
+                            else:
+                                hi = bound
+                    else:
+                        raise Und("condition %r" % (atom,))
+            if not feasible:
+                continue
+            rv = ev(pth.end_node.value, env)
+            if rv[0] != "days":
+                raise Und("returned value is not a day count")
+            rows.append((flagv, rv[1], rv[2], lo, hi))
+    except Und as e:
+        ctx.error(key, "date-system computation not decoded: %s" % e)
         return
+    if not rows:
+        ctx.error(key, "no returning path decoded")
+        return
+
+    def bound_days(b, epoch):
+        if b is None:
+            return None
+        k, shift = b
+        if isinstance(k, tuple):
+            k = (k[1] - epoch).days
+        return k + shift
+
     probs = []
-    if (datetime.date(1904, 1, 1) - epochs[True]).days != 0:
-        probs.append("1904 system: 1904-01-01 gets serial %d, the standard says 0" % (datetime.date(1904, 1, 1) - epochs[True]).days)
-    if (datetime.date(1900, 1, 1) - epochs[False]).days != 1:
-        probs.append("1900 system: 1900-01-01 gets serial %d, the standard says 1" % (datetime.date(1900, 1, 1) - epochs[False]).days)
-    want_first = (datetime.date(1900, 3, 1) - epochs[False]).days
-    if adj[0] != want_first or adj[1] != 1:
-        d0 = epochs[False] + datetime.timedelta(days=min(adj[0], want_first))
-        probs.append("1900 system: the phantom 1900-02-29 is accounted for from day count %d on (+%s); it must be from %d on (1900-03-01), so "
-                     "dates around %s are off by one against the workbook" % (adj[0], adj[1], want_first, d0.isoformat()))
+    for flagv, epoch, add, lo, hi in rows:
+        if flagv is True:
+            s0 = (datetime.date(1904, 1, 1) - epoch).days + add
+            if s0 != 0 or lo is not None or hi is not None:
+                probs.append("1904 system: 1904-01-01 gets serial %d, the standard says 0" % s0)
+        else:
+            lo_d, hi_d = bound_days(lo, epoch), bound_days(hi, epoch)
+            first_mar = (datetime.date(1900, 3, 1) - epoch).days
+            jan1 = (datetime.date(1900, 1, 1) - epoch).days
+            # rows partition the day counts: the one containing 1900-01-01 must give 1, the one containing 1900-03-01 and later must add 1
+            def covers(x):
+                return (lo_d is None or x >= lo_d) and (hi_d is None or x < hi_d)
+            if covers(jan1) and jan1 + add != 1:
+                probs.append("1900 system: 1900-01-01 gets serial %d, the standard says 1" % (jan1 + add))
+            for day, want in ((first_mar - 1, first_mar - 1 + (jan1 - 1) * 0), (first_mar, first_mar + 1), (first_mar + 400, first_mar + 401)):
+                if covers(day):
+                    got = day + add
+                    exp = day + (1 if day >= first_mar else 0) + (1 - jan1)
+                    if got != exp:
+                        dd = epoch + datetime.timedelta(days=day)
+                        probs.append("1900 system: %s gets serial %d, the standard says %d (the phantom 1900-02-29 is serial 60: dates from "
+                                     "1900-03-01 on are one more than their day count)" % (dd.isoformat(), got, exp))
+    flags = {r[0] for r in rows}
+    if flags != {True, False} and None not in flags:
+        probs.append("only the %s date system is computed" % ("1904" if True in flags else "1900"))
+    if None in flags:
+        ctx.error(key, "a path does not decide the date-system flag")
+        return
     if probs:
-        ctx.violation(rid, key, "; ".join(probs), file=f.file, line=f.line)
+        ctx.violation(rid, key, "; ".join(sorted(set(probs))), file=f.file, line=f.line)
     else:
-        ctx.ok(rid, key, sample={"1904": "serial 0 = 1904-01-01", "1900": "serial 1 = 1900-01-01, +1 from 1900-03-01 on (day count >= %d)" % want_first})
+        ctx.ok(rid, key, sample={"1904": "serial 0 = 1904-01-01", "1900": "serial 1 = 1900-01-01, +1 from 1900-03-01 on", "paths": len(rows)})
 
 
 def writer_rewriter_rule(ctx, prog, rid):
